@@ -87,6 +87,7 @@ class Agg:
         self.harness_errors = []
         self.samples = []
         self.extra = {}
+        self.sets = {}
 
     def add(self, r):
         if "harness_error" in r:
@@ -111,6 +112,8 @@ class Agg:
             self.violations.append(v)
         if r.get("sample") is not None and len(self.samples) < 4:
             self.samples.append(r["sample"])
+        for k, v in r.get("sets", {}).items():
+            self.sets.setdefault(k, set()).update(v)
         for k, v in r.get("extra", {}).items():
             if isinstance(v, (int, float)):
                 self.extra[k] = self.extra.get(k, 0) + v
@@ -217,6 +220,8 @@ def write_evidence(mod, tier, master, agg, wall, coverage_extra, violations_n, l
         "repo_head": coverage_extra.pop("repo_head", None),
     }
     cov.update({k: v for k, v in agg.extra.items()})
+    for k, v in agg.sets.items():
+        cov["distinct_" + k] = len(v)
     cov.update(coverage_extra)
     ev = {
         "property_id": mod.ID,
